@@ -16,7 +16,9 @@ MS = timedelta(milliseconds=1)
 
 class Cz:
     def __init__(self, rnd):
-        self.c = store.Concretiser(rnd, scales=(2, 10, 1000))     # even scale: half a tick is a whole number of ms
+        # even scales: half a tick is a whole number of ms.  The large ones make the pulsetime (a multiple of half a tick)
+        # a fractional number of seconds whose product with 1000 is not exact in floating point (1.005, 2.01, 2.03, 4.06, 8.03 s)
+        self.c = store.Concretiser(rnd, scales=(2, 10, 1000, 1000, 2010, 4020, 4060, 8120, 16060, 21600000))   # the last: 6 h per tick, merged events pass 24 h
 
     def ev(self, e, Event):
         return Event(timestamp=self.c.dt(e["ts"]), duration=self.c.td(e["dur"]), data={"v": e["d"]})
